@@ -17,24 +17,6 @@ namespace ShVerif.C13
 theorem empty_quoted (l : Lang) : quote l [] = .ok [0x27, 0x27] := by
   simp [quote, quoteCore]
 
-/-! ## The legacy zero value -/
-
-theorem resolve_ne_zero (l : Nat) : resolve l ≠ 0 := by
-  unfold resolve
-  split
-  · decide
-  · assumption
-
-theorem resolve_idem (l : Nat) : resolve (resolve l) = resolve l := by
-  have h := resolve_ne_zero l
-  generalize resolve l = r at h
-  simp [resolve, h]
-
-theorem validLang_resolve (l : Lang) (h : validLang l = true) : validLang (resolve l) = true := by
-  unfold resolve; split
-  · decide
-  · exact h
-
 /-! ## quote_roundtrip -/
 
 /-- For every variant the parser accepts (the five variants and the legacy zero value) and every
@@ -46,8 +28,9 @@ theorem validLang_resolve (l : Lang) (h : validLang l = true) : validLang (resol
 theorem quote_roundtrip (l : Lang) (s q : Bytes) (hl : validLang l = true)
     (h : quote l s = .ok q) :
     ∃ w, lexWords (resolve l) q = .ok [w] ∧ WordShape w ∧ expandLit w = .ok s := by
-  have := quote_roundtrip_main (resolve l) s q (validLang_resolve l hl) h
-  rwa [resolve_idem] at this
+  obtain ⟨w, h1, h2, h3, _⟩ := quote_roundtrip_main (resolve l) s q (validLang_resolve l hl) h
+  rw [resolve_idem] at h1
+  exact ⟨w, h1, h2, h3⟩
 
 /-- The same, through `unquote` (parse as words, demand exactly one, expand it). -/
 theorem quote_unquote (l : Lang) (s q : Bytes) (hl : validLang l = true)
@@ -127,6 +110,50 @@ theorem quote_error_offset (l : Lang) (s : Bytes) (e : QErr) (h : quote l s = .e
     ∃ pre t post, runes s = pre ++ t :: post ∧ e.offs = (pre.flatMap Tok.raw).length ∧
       Offending (resolve l) e.kind t ∧ ∀ t' ∈ pre, ¬ Offending (resolve l) e.kind t' :=
   quote_error_at (resolve l) s e h
+
+/-! ## Command position: the result used as the only word of a command -/
+
+/-- For every variant and every string that is not one of the parser's own builtin clauses
+    (`let`, `declare`…, bats `@test`: shell builtins, not reserved words), the quoted text, parsed
+    on its own as a whole program, is a simple command with no assignment and exactly one word,
+    which expands to the string. -/
+theorem quote_command_position (l : Lang) (s q : Bytes) (hl : validLang l = true)
+    (h : quote l s = .ok q) (hc : clauseWord (resolve l) s = false) :
+    ∃ w, cmdPos (resolve l) q = .simple w ∧ WordShape w ∧ expandLit w = .ok s := by
+  obtain ⟨w, h1, h2, h3, h4⟩ := quote_roundtrip_main (resolve l) s q (validLang_resolve l hl) h
+  rw [resolve_idem] at h1
+  refine ⟨w, ?_, h2, h3⟩
+  cases w with
+  | nil =>
+    rcases h2 with ⟨_, e⟩ | ⟨_, e⟩ | ⟨_, e⟩ | ⟨e, _⟩
+    · cases e
+    · cases e
+    · cases e
+    · exact absurd rfl e
+  | cons p ps =>
+    cases p with
+    | lit v =>
+      obtain ⟨rfl, rfl, hk, h3d, h7b⟩ := h4 v ps rfl
+      have a1 := stmtWord_false (resolve l) v hk h7b hc
+      have a2 : assignLit (resolve l) v = false := by simp only [assignLit, firstEq_none v h3d]
+      simp only [cmdPos, h1, a1, a2, Bool.false_eq_true, and_false, ↓reduceIte]
+    | sgl d v => simp only [cmdPos, h1]
+    | dbl v => simp only [cmdPos, h1]
+
+/-- Pinned (fix 3e73091): `elif` is a keyword for Quote, so it is quoted; bare, it would not be a
+    simple command in first position. -/
+theorem pinned_elif :
+    quote langBash elifWord = .ok ([0x27] ++ elifWord ++ [0x27]) ∧
+    cmdPos langBash elifWord = .special ∧
+    cmdPos langBash ([0x27] ++ elifWord ++ [0x27]) = .simple [.sgl false elifWord] := by
+  decide +kernel
+
+/-- What Quote protects against in first position: a bare result never contains `=` (so it is
+    never read as `name=value` / `name+=value`), e.g. `a+=b` is quoted. -/
+example : quote langBash [0x61, 0x2b, 0x3d, 0x62] = .ok [0x27, 0x61, 0x2b, 0x3d, 0x62, 0x27] ∧
+    cmdPos langBash [0x61, 0x2b, 0x3d, 0x62] = .assign ∧
+    cmdPos langPOSIX [0x61, 0x2b, 0x3d, 0x62] = .simple [.lit [0x61, 0x2b, 0x3d, 0x62]] := by
+  decide +kernel
 
 /-! ## Non-vacuity: every output shape and every error occurs -/
 
